@@ -179,9 +179,9 @@ func ReplayHostile(path string) (bool, int) {
 		return false, 2
 	}
 	var rf struct {
-		Property string           `json:"property"`
-		Kind     string           `json:"kind"`
-		Stream   *impfuzz.Stream  `json:"stream"`
+		Property string          `json:"property"`
+		Kind     string          `json:"kind"`
+		Stream   *impfuzz.Stream `json:"stream"`
 	}
 	if json.Unmarshal(b, &rf) != nil || rf.Kind != "hostile-import" {
 		return false, 0
